@@ -863,3 +863,147 @@ func ruleWriterNew(w *World, r *Report, pfx string) {
 		r.Check(ok, rule, "cwriter.Writer.GetTermSize", w.pos(f.Pos()), "termSize(fd)", "GetTermSize does not query the installed size function with the writer's own descriptor")
 	}
 }
+
+// ruleStateInitialised (R7n, C02): what the render path calls or dereferences without a nil test
+// exists from the start: the bar state constructor stores a function into `extender` and a buffer
+// into every slot of `buffers` on every path (a missing one is a nil dereference in the bar's
+// goroutine at the first frame, taking the whole program down), and Add replaces a nil filler.
+func ruleStateInitialised(w *World, r *Report, pfx string) {
+	rule := pfx + ".R7n"
+	mk := w.makeBarStateFn()
+	if mk == nil {
+		r.Unresolved("anchor", "bar state constructor", "not found")
+		return
+	}
+	nSlots := int64(-1)
+	if st := structOf(w.namedByTypeName(tBState)); st != nil {
+		for i := 0; i < st.NumFields(); i++ {
+			if st.Field(i).Name() == "buffers" {
+				if arr, ok := st.Field(i).Type().Underlying().(*types.Array); ok {
+					nSlots = arr.Len()
+				}
+			}
+		}
+	}
+	bad := ""
+	nP, over := w.enumPaths(mk, pathOpts{InlineDepth: 2, Inline: w.helperInline(mk), MaxPaths: 50000}, func(p *Path) {
+		if p.Exit != "return" || bad != "" {
+			return
+		}
+		okExt := false
+		for _, st := range p.storesTo(tBState, "extender") {
+			switch p.stripR(st.Val).V.(type) {
+			case *ssa.MakeClosure, *ssa.Function:
+				okExt = true
+			}
+		}
+		if !okExt {
+			bad = "the constructor has a path that leaves `extender` nil: the render closure calls it unconditionally (nil function call in the bar's goroutine)"
+			return
+		}
+		slots := map[int64]bool{}
+		all := false
+		for _, ev := range p.Events {
+			st, ok := ev.In.(*ssa.Store)
+			if !ok {
+				continue
+			}
+			ia, ok := st.Addr.(*ssa.IndexAddr)
+			if !ok {
+				continue
+			}
+			if f, ok := fieldOf(ia.X); !ok || f.Owner != tBState || f.Name != "buffers" {
+				continue
+			}
+			if isNilConst(p.R(p.val(ev, st.Val)).V) {
+				continue
+			}
+			if k, ok := constInt(p.R(p.val(ev, ia.Index)).V); ok {
+				slots[k] = true
+			} else {
+				// a loop over the slots: accepted when it walks every index of the array
+				for _, l := range naturalLoops(st.Parent()) {
+					if l.Blocks[st.Block()] {
+						if iw := w.loopIndexWalk(l, ia.X); iw.OK && iw.CoversAll {
+							all = true
+						} else if cl := classifyCountingLoop(l); cl.ok && cl.step == 1 {
+							if k, ok := constInt(cl.bound); ok && k == nSlots {
+								all = true
+							}
+						}
+					}
+				}
+			}
+		}
+		if !all {
+			for i := int64(0); i < nSlots; i++ {
+				if !slots[i] {
+					bad = fmt.Sprintf("the constructor has a path that leaves buffers[%d] nil: draw and the fillers write into it unconditionally", i)
+				}
+			}
+		}
+	})
+	if over {
+		r.Undecided(rule, "bar state constructor: render-path fields", w.pos(mk.Pos()), "path cap")
+	} else {
+		r.Check(bad == "" && nP > 0 && nSlots > 0, rule, "bar state constructor: render-path fields", w.pos(mk.Pos()), "extender and every buffer slot set on every path", orStr(bad, "no returning path / buffers field not found"))
+	}
+	// Add: a nil filler is replaced before the state is built
+	if add := w.Func("mpb.(*Progress).Add"); add != nil {
+		bad := ""
+		n := 0
+		w.enumPaths(add, pathOpts{InlineDepth: 1, Inline: w.helperInline(add)}, func(p *Path) {
+			for _, ev := range p.Events {
+				mc, ok := ev.In.(*ssa.MakeClosure)
+				if !ok {
+					continue
+				}
+				clo, _ := mc.Fn.(*ssa.Function)
+				if clo == nil {
+					continue
+				}
+				// the closure that builds the state: calls the constructor
+				calls := false
+				for _, b := range clo.Blocks {
+					for _, in := range b.Instrs {
+						if c, ok := in.(*ssa.Call); ok && c.Call.StaticCallee() == mk {
+							calls = true
+						}
+					}
+				}
+				if !calls {
+					continue
+				}
+				n++
+				fillerP := ssa.Value(add.Params[2])
+				// the variable holding the filler: the parameter itself or the cell it was spilled into
+				var cell *ssa.Alloc
+				for _, b := range add.Blocks {
+					for _, in := range b.Instrs {
+						if st, ok := in.(*ssa.Store); ok && st.Val == fillerP {
+							cell, _ = st.Addr.(*ssa.Alloc)
+						}
+					}
+				}
+				isFiller := func(v Val) bool {
+					if v.V == fillerP || w.origin(v.V) == fillerP {
+						return true
+					}
+					ld, ok := v.V.(*ssa.UnOp)
+					return ok && ld.Op == token.MUL && cell != nil && ld.X == ssa.Value(cell)
+				}
+				nonNil := p.hasCmp(ev.Idx, token.NEQ, isFiller, isNilVal)
+				replaced := false
+				for _, e2 := range p.Events[:ev.Idx] {
+					if st, ok := e2.In.(*ssa.Store); ok && cell != nil && st.Addr == ssa.Value(cell) && st.Val != fillerP {
+						replaced = true
+					}
+				}
+				if !nonNil && !replaced {
+					bad = "a nil filler reaches the bar state: the first frame calls Fill on a nil interface"
+				}
+			}
+		})
+		r.Check(bad == "" && n > 0, rule, "API:Progress.Add nil filler", w.pos(add.Pos()), "nil filler replaced by the no-op filler", orStr(bad, "the closure building the state was not found"))
+	}
+}
